@@ -518,6 +518,12 @@ The `SPEC` verdict of `bin/check` is computed by `Driver/Utf8.lean` as
 bytes `bs` of the input, with an independently written list decoder (`refScan`) and search-free widths
 (`wcwidthSpec`).  These theorems say that this is the same function the theorems above talk about. -/
 
+/-- The bytes the driver hands to the oracle (`effectiveOf`: the buffer from the start offset, cut at the
+    length and at the first NUL; `none` = precondition of the call violated) are the effective input. -/
+theorem oracle_input (a : Array UInt8) (len : Option Nat) (start : Nat) (bs : List Nat)
+    (h : effectiveOf a len start = some bs) : Effective (memOfArray a) start (lenSub len start) bs :=
+  effectiveOf_sound a len start bs h
+
 /-- The oracle's decoder over the effective bytes finds exactly the characters and the ending of the strict
     scan over memory. -/
 theorem oracle_decoder (mem : Mem) (fuel str : Nat) (len : Option Nat) (bs : List Nat) (cs : List Ch) (t : Tail)
